@@ -336,6 +336,9 @@ def run_chunk(items):
 
 
 # ------------------------------------------------------------------ enumeration
+REF_TET = tet_faces((0, 0, 0), (1, 0, 0), (0, 1, 0), (0, 0, 1))     # companion body, volume 1/6
+
+
 def variants(k, nframes):
     """Density / override / frames chosen by rotating through the lists with the case index, so
     that every density, override, rotation and translation meets every family."""
@@ -347,148 +350,277 @@ def variants(k, nframes):
     return dn, dd, ovr, oc2, frames, lt
 
 
-def build_items(tier):
-    big = tier == "thorough"
-    rs = np.random.RandomState(seed() + 303)
-    items = []
-    fam = {}
+class Builder:
+    """Collects work items; `k` (the running index over the whole run) drives the variants."""
 
-    def add(kind, name, tri, nb=None, nframes=1, laws=True, apis=(API_TRI, API_MESH), frames=None, force=None):
-        k = len(items)
-        dn, dd, ovr, oc2, fr, lt = variants(k, nframes)
+    def __init__(self):
+        self.k = 0
+        self.fam = {}
+        self.items = []
+
+    def take(self):
+        items, self.items = self.items, []
+        return items
+
+    def add(self, kind, name, tri, nb=None, nframes=1, laws=True, apis=(API_TRI, API_MESH), frames=None,
+            force=None):
+        dn, dd, ovr, oc2, fr, lt = variants(self.k, nframes)
+        self.k += 1
         if force:
             dn, dd, ovr, oc2 = force
-        items.append({"id": k, "kind": kind, "name": name, "tri": tri, "dn": dn, "dd": dd, "ovr": ovr,
-                      "oc2": oc2, "frames": fr if frames is None else frames, "nb": nb or [len(tri)], "lt": lt,
-                      "laws": laws, "apis": apis})
-        fam[name] = fam.get(name, 0) + 1
+        self.items.append({"id": len(self.items), "kind": kind, "name": name, "tri": tri, "dn": dn, "dd": dd,
+                           "ovr": ovr, "oc2": oc2, "frames": fr if frames is None else frames,
+                           "nb": nb or [len(tri)], "lt": lt, "laws": laws, "apis": apis})
+        self.fam[name] = self.fam.get(name, 0) + 1
 
-    pts3 = [list(p) for p in itertools.product(range(3), repeat=3)]
-    # (i) tetrahedra ----------------------------------------------------------------------
-    if big:
-        # every tetrahedron with vertices in {0,1,2}^3, every vertex order: 27^4 = 3^12 = 531441
-        for n, (a, b, c, d) in enumerate(itertools.product(pts3, repeat=4)):
-            mesh_too = n % 4 == 0
-            add("tet", "tet_grid3_all", tet_faces(a, b, c, d), nframes=1, laws=(n % 8 == 0),
-                apis=(API_TRI, API_MESH) if mesh_too else (API_TRI,))
-    else:
-        # first vertex at the origin, the other three every ordered triple from {0,1,2}^3: 27^3
-        for b, c, d in itertools.product(pts3, repeat=3):
-            add("tet", "tet_grid3_origin", tet_faces([0, 0, 0], b, c, d), nframes=1)
-    nsamp = 200000 if big else 10000
-    P = rs.randint(0, 4, size=(nsamp, 4, 3))
-    for n in range(nsamp):
-        a, b, c, d = P[n].tolist()
-        add("tet", "tet_grid4_sampled", tet_faces(a, b, c, d), nframes=1, laws=(not big or n % 8 == 0))
-    nsamp = 50000 if big else 3000
-    P = rs.randint(0, 4, size=(nsamp, 4, 3)) + rs.randint(-3, 4, size=(nsamp, 1, 3))
-    for n in range(nsamp):
-        a, b, c, d = P[n].tolist()
-        add("tet", "tet_grid4_translated", tet_faces(a, b, c, d), nframes=2, laws=(not big or n % 8 == 0))
-    # (ii) pillows --------------------------------------------------------------------------
-    if big:
-        for a, b, c in itertools.product(pts3, repeat=3):
-            add("pillow", "pillow_grid3_all", pillow(a, b, c), nframes=1, laws=True)
-    else:
-        for b, c in itertools.product(pts3, repeat=2):
-            add("pillow", "pillow_grid3_origin", pillow([0, 0, 0], b, c), nframes=1)
-    nsamp = 40000 if big else 2500
-    P = rs.randint(0, 4, size=(nsamp, 3, 3)) + rs.randint(-2, 3, size=(nsamp, 1, 3))
-    for n in range(nsamp):
-        a, b, c = P[n].tolist()
-        add("pillow", "pillow_grid4_sampled", pillow(a, b, c), nframes=1, laws=(not big or n % 4 == 0))
-    # (iii) composite closed surfaces ---------------------------------------------------
+    def lean(self, kind, name, tri, n, nb=None, every=16):
+        """Bulk families: the triangle-level API only, every `every`-th record in full
+        (mesh route, a frame, laws of the reference)."""
+        if n % every == 0:
+            self.add(kind, name, tri, nb=nb, nframes=1, laws=True)
+        else:
+            self.add(kind, name, tri, nb=nb, nframes=0, laws=False, apis=(API_TRI,),
+                     force=(1, 1, False, (0, 0, 0)) if n % 2 else None)
+
+
+def composite_items(B, tier, rs):
+    """(iii) composite closed surfaces, translated copies, every rotation x translation."""
+    big = tier == "thorough"
     shapes = named_shapes(tier)
     offsets = [(0, 0, 0), (1, 0, 0), (-1, -2, 0), (0, 1, -3), (-2, -1, -1), (2, 2, 1)]
     if big:
         offsets += [(-3, 0, 0), (0, -3, 2), (1, -1, 1), (-1, -1, -2)]
     for name, tri, nb in shapes:
         for off in offsets:
-            reps = 6 if big else 2
-            for _ in range(reps):
-                add("surface", name, shift(tri, off), nb=nb, nframes=4 if big else 2)
-        # every rotation x every translation once per shape (unit density, no override)
+            for _ in range(6 if big else 2):
+                B.add("surface", name, shift(tri, off), nb=nb, nframes=4 if big else 2)
+        # every rotation x translation once per shape (unit density, no override)
         base = shift(tri, offsets[1])
         allfr = [(ri, t) for ri in range(24) for t in (FRAME_T if big else FRAME_T[:3])]
         for k in range(0, len(allfr), 12):
-            add("surface", name, base, nb=nb, frames=allfr[k:k + 12], force=(1, 1, False, (0, 0, 0)),
-                apis=(API_MESH,), laws=(k == 0))
-        # overriding with the true centre (when it is a half-integer point) changes nothing: covered
-        # by the generic clauses since then the override branch reports the same lattice values
+            B.add("surface", name, base, nb=nb, frames=allfr[k:k + 12], force=(1, 1, False, (0, 0, 0)),
+                  apis=(API_MESH,), laws=(k == 0))
     # two random tetrahedra as one surface (several bodies, possibly overlapping / cancelling)
     npair = 4000 if big else 600
     P = rs.randint(0, 4, size=(npair, 8, 3))
     for n in range(npair):
         q = P[n].tolist()
-        add("surface", "two_random_tets", tet_faces(*q[:4]) + tet_faces(*q[4:]), nb=[4, 4], nframes=2)
-    return items, fam
+        B.add("surface", "two_random_tets", tet_faces(*q[:4]) + tet_faces(*q[4:]), nb=[4, 4], nframes=2)
+
+
+def sampled_items(B, tier, rs, limit=None):
+    """Seeded samples; a generator that hands out a block whenever `limit` items are pending."""
+    big = tier == "thorough"
+    nsamp = 200000 if big else 10000
+    P = rs.randint(0, 4, size=(nsamp, 4, 3))
+    for n in range(nsamp):
+        a, b, c, d = P[n].tolist()
+        B.add("tet", "tet_grid4_sampled", tet_faces(a, b, c, d), nframes=1, laws=(not big or n % 8 == 0))
+        if limit and len(B.items) >= limit:
+            yield B.take()
+    nsamp = 50000 if big else 3000
+    P = rs.randint(0, 4, size=(nsamp, 4, 3)) + rs.randint(-3, 4, size=(nsamp, 1, 3))
+    for n in range(nsamp):
+        a, b, c, d = P[n].tolist()
+        B.add("tet", "tet_grid4_translated", tet_faces(a, b, c, d), nframes=2, laws=(not big or n % 8 == 0))
+        if limit and len(B.items) >= limit:
+            yield B.take()
+    nsamp = 40000 if big else 2500
+    P = rs.randint(0, 4, size=(nsamp, 3, 3)) + rs.randint(-2, 3, size=(nsamp, 1, 3))
+    for n in range(nsamp):
+        a, b, c = P[n].tolist()
+        B.add("pillow", "pillow_grid4_sampled", pillow(a, b, c), nframes=1, laws=(not big or n % 4 == 0))
+        if limit and len(B.items) >= limit:
+            yield B.take()
+
+
+def blocks(tier, B):
+    """Yields (label, items); each block is recorded and validated on its own (bounded memory)."""
+    rs = np.random.RandomState(seed() + 303)
+    pts3 = [list(p) for p in itertools.product(range(3), repeat=3)]
+    pts4 = [list(p) for p in itertools.product(range(4), repeat=3)]
+    if tier != "thorough":
+        # first vertex at the origin, the other three every ordered triple from {0,1,2}^3: 27^3
+        for b, c, d in itertools.product(pts3, repeat=3):
+            B.add("tet", "tet_grid3_origin", tet_faces([0, 0, 0], b, c, d), nframes=1)
+        for b, c in itertools.product(pts3, repeat=2):
+            B.add("pillow", "pillow_grid3_origin", pillow([0, 0, 0], b, c), nframes=1)
+        for _ in sampled_items(B, tier, rs):
+            pass
+        composite_items(B, tier, rs)
+        yield "quick", B.take()
+        return
+    LIMIT = 140000
+    # (a) every 4-subset of {0..3}^3 in one fixed vertex order: C(64,4) = 635376
+    for n, (a, b, c, d) in enumerate(itertools.combinations(pts4, 4)):
+        B.lean("tet", "tet_grid4_subsets", tet_faces(a, b, c, d), n)
+        if len(B.items) >= LIMIT:
+            yield "tet_grid4_subsets", B.take()
+    yield "tet_grid4_subsets", B.take()
+    # (b) pillows over every ordered triple of {0..3}^3 (4^9 = 262144), reversed face starting at the
+    #     same vertex / written as the transposition of the first two vertices; with a companion
+    #     tetrahedron so that the first moments stay observable (centre of mass needs volume # 0)
+    for variant in (0, 1):
+        for n, (a, b, c) in enumerate(itertools.product(pts4, repeat=3)):
+            second = [a, c, b] if variant == 0 else [b, a, c]
+            B.lean("pillow", "pillow_grid4_all_v%d" % variant, [[a, b, c], second] + REF_TET, n, nb=[2, 4])
+            if len(B.items) >= LIMIT:
+                yield "pillow_grid4_all", B.take()
+    yield "pillow_grid4_all", B.take()
+    # (c) every ordered 4-tuple over {0,1,2}^3: 27^4 = 3^12 = 531441 (no symmetry argument needed)
+    for n, (a, b, c, d) in enumerate(itertools.product(pts3, repeat=4)):
+        B.lean("tet", "tet_grid3_all", tet_faces(a, b, c, d), n)
+        if len(B.items) >= LIMIT:
+            yield "tet_grid3_all", B.take()
+    yield "tet_grid3_all", B.take()
+    for a, b, c in itertools.product(pts3, repeat=3):
+        B.add("pillow", "pillow_grid3_all", pillow(a, b, c), nframes=1, laws=True)
+    for items in sampled_items(B, tier, rs, limit=100000):
+        yield "sampled", items
+    yield "sampled", B.take()
+    composite_items(B, tier, rs)
+    yield "composite", B.take()
+
+
+def companions(B, cases):
+    """A flat tetrahedron has volume 0, so its first moments are not observable (no centre of mass);
+    record it again together with a companion tetrahedron of volume 1/6."""
+    for c in cases:
+        if c["name"] == "tet_grid4_subsets" and c["exc"] == "" and c["obs"][0]["vol6"] == 0:
+            B.lean("tet", "flat_tet_grid4_plus_unit_tet", c["tri"] + REF_TET, 1, nb=[4, 4])
+    return B.take()
+
+
+class Tally:
+    def __init__(self):
+        self.n = {}
+        self.sets = {}
+
+    def add(self, key, v=1):
+        self.n[key] = self.n.get(key, 0) + v
+
+    def note(self, key, v):
+        self.sets.setdefault(key, set()).add(v)
 
 
 def main(argv):
     tier = tier_from_args(argv)
     V = Verdict(PROP, tier)
     import_trimesh()
-    items, fam = build_items(tier)
-    res = pmap(run_chunk, items, chunk=500)
-    cases = [c for r in res for c in r]
-    if len(cases) != len(items) or len(cases) < 5000:
-        raise MachineryError("too few cases")
-    rejects, states, wall = tlc.validate_batches("c03", "MassProps", cases, CFG, timeout=1500)
-    for cid, clause in sorted(rejects.items()):
-        c = cases[cid]
-        detail = {"name": c["name"], "tri": c["tri"], "density": [c["dn"], c["dd"]],
-                  "center_mass_override_x2": c["oc2"] if c["ovr"] else None,
-                  "obs": [{k: v for k, v in o.items() if k != "crs2" or len(v) <= 12} for o in c["obs"]]}
-        detail["meaning"] = MEANING.get(clause.split(":")[-1], "reported value is not on the lattice of exact values"
-                                        if "offlattice" in clause else clause)
-        V.violation(clause, detail)
-    n_obs = sum(len(c["obs"]) for c in cases)
-    frames = [(tuple(map(tuple, f["R"])), tuple(f["t"])) for c in cases for o in c["obs"] for f in o["frames"]]
-    nz = sum(1 for c in cases if c["obs"] and c["obs"][0]["vol6"] != 0)
-    neg = sum(1 for c in cases if c["obs"] and c["obs"][0]["vol6"] < 0)
-    if nz < len(cases) // 4 or neg < 100 or len({f[0] for f in frames}) != 24:
-        raise MachineryError("enumeration degenerate: %d non-zero volumes, %d negative, %d rotations"
-                             % (nz, neg, len({f[0] for f in frames})))
-    small = [c for c in cases if len(c["tri"]) <= 4]
-    # coverage only (not a verdict): records whose reported face areas are all integers / half-integers,
-    # i.e. those on which TLC's total-area clause applies
-    n_area = sum(1 for c in cases for o in c["obs"]
-                 if o["hasarea"] and all(x >= 0 and math.isqrt(x) ** 2 == x for x in o["crs2"]))
-    if n_area < 100:
-        raise MachineryError("total-area clause exercised on only %d records" % n_area)
+    B = Builder()
+    T = Tally()
+    samples = []
+    block_log = []
+    for label, items in blocks(tier, B):
+        if not items:
+            continue
+        cases = [c for r in pmap(run_chunk, items, chunk=500) for c in r]
+        extra = companions(B, cases)
+        if extra:
+            more = [c for r in pmap(run_chunk, extra, chunk=500) for c in r]
+            for c in more:
+                c["id"] += len(cases)
+            cases += more
+        if len(cases) != len(items) + len(extra) or any(c["id"] != k for k, c in enumerate(cases)):
+            raise MachineryError("records lost in block " + label)
+        rejects, states, wall = tlc.validate_batches("c03", "MassProps", cases, CFG, timeout=1500)
+        block_log.append({"block": label, "records": len(cases), "tlc_wall_s": round(wall, 1)})
+        for cid, clause in sorted(rejects.items()):
+            c = cases[cid]
+            detail = {"name": c["name"], "tri": c["tri"], "density": [c["dn"], c["dd"]],
+                      "center_mass_override_x2": c["oc2"] if c["ovr"] else None,
+                      "obs": [{k: v for k, v in o.items() if k != "crs2" or len(v) <= 12} for o in c["obs"]]}
+            detail["meaning"] = MEANING.get(clause.split(":")[-1],
+                                            "reported value is not on the lattice of exact values"
+                                            if "offlattice" in clause else clause)
+            V.violation(clause, detail)
+        # ---- coverage, measured on what was really recorded
+        T.add("states", states)
+        T.add("records", len(cases))
+        T.add("rejected", len(rejects))
+        T.add("tlc_wall", wall)
+        for c in cases:
+            T.add("laws", 1 if c["laws"] else 0)
+            T.add("override", 1 if c["ovr"] else 0)
+            T.note("densities", "%d/%d" % (c["dn"], c["dd"]))
+            if c["obs"]:
+                v6 = c["obs"][0]["vol6"]
+                T.add("nonzero" if v6 else "zero")
+                T.add("negative", 1 if v6 < 0 else 0)
+            for o in c["obs"]:
+                T.add("obs")
+                T.add("obs_" + o["api"])
+                T.add("faces", len(o["crs2"]))
+                # coverage only (not a verdict): reported doubled face areas all integers, i.e. the
+                # records on which TLC's total-area clause applies
+                if o["hasarea"] and all(x >= 0 and math.isqrt(x) ** 2 == x for x in o["crs2"]):
+                    T.add("area_total")
+                for f in o["frames"]:
+                    T.add("frames")
+                    T.note("rot", tuple(map(tuple, f["R"])))
+                    T.note("frame", (tuple(map(tuple, f["R"])), tuple(f["t"])))
+        small = [c for c in cases if len(c["tri"]) <= 8 and c["obs"]]
+        if small and len(samples) < 4:
+            samples += [small[len(small) // 3], small[-1]]
+    n = T.n
+    if n.get("records", 0) < 5000 or n.get("nonzero", 0) < n["records"] // 4 or n.get("negative", 0) < 100 \
+            or len(T.sets.get("rot", ())) != 24 or n.get("area_total", 0) < 100 or n.get("override", 0) < 100:
+        raise MachineryError("enumeration degenerate: %s" % json_counts(n))
+    grid4 = ("every 4-subset of the 64 lattice points {0..3}^3 in one vertex order (C(64,4) = 635376; each flat one "
+             "again with a companion tetrahedron), both transposition pillows over every ordered triple of {0..3}^3 "
+             "(2 x 4^9 = 524288, with a companion tetrahedron), every ordered 4-tuple over {0,1,2}^3 (3^12 = 531441), "
+             "all 3^9 pillows over {0,1,2}^3, 200000 + 50000 seeded tetrahedra of the {0..3}^12 grid / its "
+             "translates, 40000 seeded pillows, composite surfaces")
     cov = {
-        "states": states, "transitions": states,
-        "traces_validated_against_impl": n_obs,
-        "records": len(cases),
-        "records_per_family": fam,
-        "api_observations": {a: sum(1 for c in cases for o in c["obs"] if o["api"] == a) for a in (API_TRI, API_MESH)},
-        "face_areas_compared": sum(len(o["crs2"]) for c in cases for o in c["obs"]),
-        "total_areas_compared": n_area,
-        "frame_inertias_compared": len(frames),
-        "distinct_frames": len(set(frames)),
-        "distinct_rotations": len({f[0] for f in frames}),
-        "records_nonzero_volume": nz, "records_negative_volume": neg,
-        "records_zero_volume": len(cases) - nz,
-        "records_with_center_override": sum(1 for c in cases if c["ovr"]),
-        "densities": sorted({"%d/%d" % (c["dn"], c["dd"]) for c in cases}),
-        "records_checked_for_reference_laws": sum(1 for c in cases if c["laws"]),
-        "rejected": len(rejects),
+        "states": n["states"], "transitions": n["states"],
+        "traces_validated_against_impl": n["obs"],
+        "records": n["records"],
+        "records_per_family": B.fam,
+        "api_observations": {"triangles.mass_properties+triangles.area": n.get("obs_" + API_TRI, 0),
+                             "Trimesh properties+moment_inertia_frame": n.get("obs_" + API_MESH, 0)},
+        "face_areas_compared": n["faces"],
+        "total_areas_compared": n["area_total"],
+        "frame_inertias_compared": n["frames"],
+        "distinct_frames": len(T.sets["frame"]),
+        "distinct_rotations": len(T.sets["rot"]),
+        "records_nonzero_volume": n["nonzero"], "records_negative_volume": n["negative"],
+        "records_zero_volume": n.get("zero", 0),
+        "records_with_center_override": n["override"],
+        "densities": sorted(T.sets["densities"]),
+        "records_checked_for_reference_laws": n["laws"],
+        "rejected": n["rejected"],
+        "blocks": block_log,
         "exhaustive": True,
-        "enumerated": (
-            "thorough: ALL 3^12 = 531441 ordered vertex 4-tuples over {0,1,2}^3 (every tetrahedron in every "
-            "vertex order, flat ones included) + 200000/50000 seeded samples of the {0..3}^12 grid / its "
-            "translates + all 3^9 pillows over {0,1,2}^3 + 40000 sampled pillows"
+        "exhaustive_scopes": (
+            ["4-subsets of {0..3}^3", "transposition pillows over ({0..3}^3)^3", "ordered 4-tuples over {0,1,2}^3",
+             "pillows over ({0,1,2}^3)^3", "24 rotations x 8 translations per composite surface"]
             if tier == "thorough" else
+            ["tetrahedra (origin, b, c, d) with b, c, d over {0,1,2}^3", "pillows (origin, b, c) over {0,1,2}^3",
+             "24 rotations x 3 translations per composite surface"]),
+        "enumerated": (
+            "thorough: " + grid4 if tier == "thorough" else
             "quick: all 27^3 = 19683 tetrahedra with first vertex at the origin and the other three every "
-            "ordered triple over {0,1,2}^3 (both orientations, flat ones included) + 10000/3000 seeded samples "
-            "of the {0..3}^12 grid / its translates + 729 pillows at the origin + 2500 sampled pillows"),
+            "ordered triple over {0,1,2}^3 (both orientations, flat ones included), 729 pillows at the origin, "
+            "10000 + 3000 seeded tetrahedra of the {0..3}^12 grid / its translates, 2500 seeded pillows, "
+            "composite surfaces (cubes, boxes, octahedra, L-prisms, genus-1 ring, hollow / overlapping / "
+            "multi-body shells, bipyramids) at 6 offsets, 600 random pairs of tetrahedra"),
         "unisolvence_note": (
-            "summed over the four faces each integral is a polynomial of degree <= 3 in each of the 12 "
-            "coordinates, so only agreement on the full tensor grid {0,1,2,3}^12 (1.7e7 points) would imply "
-            "identity; the grid enumerated here is {0,1,2}^12 (thorough, unisolvent for the degree <= 2 "
-            "integrals: volume and first moments) resp. its origin slice (quick), plus seeded samples of {0..3}^12"),
-        "tlc_wall_s": round(wall, 1),
-        "samples": [small[len(small) // 7], small[len(small) // 2], small[-1]],
+            "Summed over the four faces of a tetrahedron each of the ten integrals, as computed and as defined, "
+            "is a polynomial of degree <= 3 in each of the 12 coordinates, so agreement on the tensor grid "
+            "{0,1,2,3}^12 implies identity, and additivity over faces extends it to every closed surface. "
+            + ("thorough covers that grid up to symmetry: the two pillow families establish on the unisolvent "
+               "grid {0..3}^9 that the per-face term is alternating under the transpositions (b c) and (a b) of "
+               "its vertices, hence under all of S3; the sum over the faces of a tetrahedron is then alternating "
+               "in its four vertices (so is the reference), so agreement on every 4-subset of {0..3}^3 in one "
+               "order implies agreement on all 4^12 ordered tuples (tuples with a repeated vertex give 0 = 0). "
+               "Flat tetrahedra and pillows carry a companion tetrahedron because the implementation reports no "
+               "first moments when the volume is zero."
+               if tier == "thorough" else
+               "quick does NOT cover that grid: it enumerates the origin slice of {0,1,2}^12 exhaustively and "
+               "13000 seeded points of {0..3}^12 (and translates); it is a regression screen, the grid argument "
+               "is carried by the thorough tier.")),
+        "tlc_wall_s": round(n["tlc_wall"], 1),
+        "samples": samples[:4],
     }
     return V.finish("model_checking", cov, assumptions=[
         "lattice coordinates in {-3..9}: the implementation's doubles are exact up to the final divisions",
@@ -497,6 +629,10 @@ def main(argv):
         "volume but non-zero moments, are not constrained (the property does not define them)",
         "total area compared only on surfaces whose faces all have integer doubled area",
     ])
+
+
+def json_counts(n):
+    return ", ".join("%s=%s" % kv for kv in sorted(n.items()))
 
 
 if __name__ == "__main__":
